@@ -189,6 +189,22 @@ fn run(ctx: &RunCtx) -> Report {
         }
         report.probe("dead_bootstrap_joiner", 1);
     }
+    // 6. a node started on an address that is already bound reports the error, and nothing else breaks
+    if report.violation.is_none() && rng.chance(1, 2) {
+        let victim = all[rng.usize(0, all.len() - 1)];
+        let mut spec = sim.node_spec(victim);
+        spec.bootstrap = vec![sim.node_addr(net.first).to_string()];
+        let h = sim.add_node(spec);
+        match sim.died(h) {
+            Some(d) if d.starts_with("build error") => {}
+            other => report.violate("bind", "second-bind-did-not-fail-cleanly", format!("starting a node on the bound address {} gave {other:?} instead of an io error", sim.node_addr(victim))),
+        }
+        let o = sim.info(victim);
+        if !sim.run_ops(&[o], sim.now() + 5 * SEC) || sim.died(victim).is_some() {
+            report.violate("bind", "bound-node-disturbed-by-second-bind", format!("node {} stopped answering after another node tried to bind its address", sim.node_addr(victim)));
+        }
+        report.probe("bind_conflict_checks", 1);
+    }
     report.nontrivial = all.len() > 1;
     if large {
         report.probe("large_network", 1);
